@@ -1867,8 +1867,12 @@ class SolveUnc(_BaseODE):
         if self.rbsize and incrb:
             rb = self.rb
             if self.m is not None:
-                if unc:
+                if unc and self.systype is float:
                     a_rb = self.invm[self._rb] * force[rb]
+                elif unc:
+                    # complex: `invm` covers the elastic part only
+                    # (see get_su_eig)
+                    a_rb = self.imrb * force[rb]
                 else:
                     a_rb = la.lu_solve(self.imrb, force[rb], check_finite=False)
             else:
